@@ -243,11 +243,11 @@ Process(ev, i) ==
                \cup V(\A k \in 1..T : ev.betas[k] > bAt(k - 1), "StrictlyIncreasing")
                \cup V(\A k \in 1..T : ev.in_unit[k] /\ ev.betas[k] <= One, "InUnit")
                \cup V(T > 0 /\ (ev.betas[T] = One \/ (RC.max_n_steps > 0 /\ T = RC.max_n_steps)) , "EndsAtOneOrCap")
-               \cup V(Cfg.adaptive \/ Cfg.max_n_steps > 0 \/ T = Cfg.n_steps, "FixedExactlyN")
-               \cup V(Cfg.max_n_steps = 0 \/ T <= Cfg.max_n_steps, "CapHonoured")
+               \cup V(RC.adaptive \/ RC.max_n_steps > 0 \/ T = RC.n_steps, "FixedExactlyN")
+               \cup V(RC.max_n_steps = 0 \/ T <= RC.max_n_steps, "CapHonoured")
                \cup V(\A k \in 1..T : ev.floor_ok[k] # "no", "FloorHonoured")
                \* ---- C07
-               \cup V((Cfg.adaptive /\ ev.have_pops) =>
+               \cup V((RC.adaptive /\ ev.have_pops) =>
                         \A k \in 1..T :
                            \/ ev.forced[k]
                            \/ (ev.meets_one[k] # "no" /\ ev.at_one[k])
